@@ -9,7 +9,10 @@
 mod alloc;
 mod checks;
 mod core;
+mod fam_crash;
+mod fam_histw;
 mod fam_rt;
+mod fam_wfault;
 mod gen;
 mod geom;
 mod orch;
